@@ -9,6 +9,7 @@ mod c10;
 mod c11;
 mod c13;
 mod c15;
+mod c16;
 mod c17;
 mod c20;
 mod common;
@@ -57,6 +58,7 @@ fn main() {
         "C11" => c11::run(tier),
         "C13" => c13::run(tier),
         "C15" => c15::run(tier),
+        "C16" => c16::run(tier),
         "C17" => c17::run(tier),
         "C20" => c20::run(tier),
         "c20-child" => c20::child(tier, args[3].parse().unwrap()),
